@@ -42,27 +42,27 @@ fn fifo<const CAP: usize, const OPS: usize>() {
 
 // @h name=vc20_fifo_cap1 tier=quick timeout=600
 // @fn SpscRing::with_capacity, SpscRing::push, SpscRing::pop, SpscRing::len, SpscRing::is_empty
-// @bound capacity 1; empty ring at a symbolic index phase 0..255; every sequence of 4 operations from {push(symbolic byte), pop}
+// @bound capacity 1; empty ring at a symbolic index phase 0..255; every sequence of 6 operations from {push(symbolic byte), pop}
 // @oracle behaves as a bounded FIFO: push fails (returning the value) iff full, pop returns the oldest value unaltered or None iff empty, len/is_empty agree with the reference
 #[kani::proof]
-#[kani::unwind(6)]
-fn vc20_fifo_cap1() { fifo::<1, 4>() }
+#[kani::unwind(8)]
+fn vc20_fifo_cap1() { fifo::<1, 6>() }
 
 // @h name=vc20_fifo_cap2 tier=quick timeout=600
 // @fn SpscRing::push, SpscRing::pop
-// @bound capacity 2, 5 operations; otherwise as vc20_fifo_cap1
+// @bound capacity 2, 7 operations; otherwise as vc20_fifo_cap1
 // @oracle as vc20_fifo_cap1
 #[kani::proof]
-#[kani::unwind(7)]
-fn vc20_fifo_cap2() { fifo::<2, 5>() }
+#[kani::unwind(9)]
+fn vc20_fifo_cap2() { fifo::<2, 7>() }
 
 // @h name=vc20_fifo_cap3 tier=thorough timeout=1200
 // @fn SpscRing::push, SpscRing::pop
-// @bound capacity 3 (not a power of two), 6 operations; otherwise as vc20_fifo_cap1
+// @bound capacity 3 (not a power of two), 8 operations; otherwise as vc20_fifo_cap1
 // @oracle as vc20_fifo_cap1
 #[kani::proof]
-#[kani::unwind(8)]
-fn vc20_fifo_cap3() { fifo::<3, 6>() }
+#[kani::unwind(10)]
+fn vc20_fifo_cap3() { fifo::<3, 8>() }
 
 static mut DROPS: u32 = 0;
 struct Tok(u8);
